@@ -10,12 +10,12 @@ def cases(rng, tier, focus):
     for rep in range(reps):
         for hd in (1, 2, 3):
             for extra in (0, 2):
-                yield dict(hd=hd, extra=extra, n=int(rng.integers(hd + 4, 14 if hd < 3 else 11)), kind=['convex', 'nonconvex'][rep % 2], seed=int(rng.integers(0, 10 ** 6)))
+                yield dict(hd=hd, extra=extra, n=int(rng.integers(hd + 4, 14 if hd < 3 else 11)), kind=['convex', 'nonconvex'][rep % 2], seed=int(rng.integers(0, 10 ** 6)), intX=(rep % 4 == 1 and extra == 0))
 
 # witness of the recorded finding 'NaN at a selected vertex on the footprint boundary' (known_findings.txt)
 PINNED = [dict(hd=3, extra=2, n=10, kind='nonconvex', seed=130321)]
 
-def nontrivial(c): return (c['hd'], c['extra'], c['n'], c['kind'], c['seed'] % 4)
+def nontrivial(c): return (c['hd'], c['extra'], c['n'], c['kind'], c['seed'] % 4, c.get('intX', False))
 
 def envelope(P, y, q, tol=1e-12):
     """lower convex envelope of the points (P_i, y_i) at position q: min sum l_i y_i s.t. sum l_i P_i = q, l >= 0, sum l = 1 (brute force over simplices)"""
@@ -42,6 +42,10 @@ def check(c):
     high_idx = [j for j in range(ncol) if j not in low_idx]
     X = np.zeros((n, ncol)); X[:, low_idx] = P
     if high_idx: X[:, high_idx] = H
+    if c.get('intX'):
+        # integer-typed features (compositions on a grid, atom counts) with real-valued targets
+        P = np.round(P * 1000); X = np.zeros((n, ncol), dtype=np.int64); X[:, low_idx] = P.astype(np.int64)
+        if high_idx: X[:, high_idx] = np.round(H * 10).astype(np.int64)
     with warnings.catch_warnings():
         warnings.simplefilter('ignore')
         dch = DirectionalConvexHull(low_dim_idx=low_idx).fit(X, y)
